@@ -1272,7 +1272,7 @@ impl Hist {
                         format!("{} {} {}", r.pick(&[0u64, 1, 100, 300, 5000, 10000]), r.pick(&[0u64, 5000, 1_000_000, u64::MAX]), b(r.chance(1, 2)))
                     };
                     let (fi, fo) = (fee(r), fee(r));
-                    return format!("H xhop {} {} {} {} {} {} {} {} {} {} {} {}", ver, amt, r.pick(&[0u8, 0, 1, 2]), b(ein), b(d1), b(d2), l1, l2, b(sw), fi, fo, r.pick(&[0u8, 0, 0, 0, 0, 1, 2, 3]));
+                    return format!("H xhop {} {} {} {} {} {} {} {} {} {} {} {}", ver, amt, r.pick(&[0u8, 0, 1, 2]), b(ein), b(d1), b(d2), l1, l2, b(sw), fi, fo, r.pick(&[0u8, 0, 0, 0, 0, 0, 0, 1, 2, 3, 4, 5]));
                 }
                 if r.chance(1, 5) {
                     // C16 / C03 / C06: the swap INSTRUCTION (real handler through the entrypoint, real token programs)
